@@ -17,6 +17,11 @@ PROP = "C11"
 IMPORT_FORMS = ["import m1", "from m1 import bump, fail, x as m1x", "from m1 import *", "import pkg", "from pkg import deep", "from pkg.sub import subval, touch"]
 
 
+def ctx_of(case, name):
+    """Documented context name of a generated script: file.<name>, or apps.<name> when it is installed as an app."""
+    return f"apps.script_{name}" if name in case.get("apps", []) else f"file.script_{name}"
+
+
 def module_sources(case):
     m1 = [
         "x = 'm1-x'",
@@ -172,6 +177,25 @@ def gen(R):
     for _ in range(R.int(2, 6)):
         order.append(R.choice(sorted(case["scripts"])))
     case["order"] = order
+    # one of the files may be installed as an app (apps/<name>.py with an entry in the apps: configuration)
+    case["apps"] = [R.choice(sorted(case["scripts"]))] if R.bool(1, 3) else []
+    # an interactive (Jupyter-style) session context: its own globals, and the documented context-switching functions
+    sess = []
+    if R.bool():
+        names = sorted(case["scripts"])
+        for _ in range(R.int(2, 10)):
+            k = R.weighted([(3, "read"), (2, "write"), (2, "def"), (3, "set"), (1, "get"), (1, "list"), (1, "deffn"), (2, "callfn")])
+            if k == "read":
+                sess.append(["read", R.choice(["x", "y", "sv0", "sv1", "shared"])])
+            elif k == "write":
+                sess.append(["write", f"w{len(sess)}"])
+            elif k == "def":
+                sess.append(["def", R.int(0, 1), f"v{len(sess)}"])
+            elif k == "set":
+                sess.append(["set", R.choice(names + ["session", "session", "nonexistent"])])
+            else:
+                sess.append([k])
+    case["session"] = sess
     return case
 
 
@@ -220,7 +244,40 @@ def run_cpython(case):
                     mods[name].main()
                 except Exception as e:  # noqa: BLE001
                     log.append(["main-raised", name, type(e).__name__])
+        sess_ns = {}
+        cur, cur_name = sess_ns, "session"
+        for i, op in enumerate(case.get("session") or []):
+            k = op[0]
+            if k == "read":
+                log.append(["sess", i, "val", json.loads(json.dumps(cur[op[1]], default=repr))] if op[1] in cur else ["sess", i, "NameError"])
+            elif k == "write":
+                cur["x"] = op[1]
+            elif k == "def":
+                cur[f"sv{op[1]}"] = op[2]
+            elif k == "set":
+                if op[1] == "session":
+                    cur, cur_name = sess_ns, "session"
+                elif op[1] in mods:
+                    cur, cur_name = vars(mods[op[1]]), ctx_of(case, op[1])
+                else:
+                    log.append(["sess", i, "NameError"])
+            elif k == "get":
+                log.append(["sess", i, "ctx", cur_name])
+            elif k == "list":
+                log.append(["sess", i, "list", cur_name, sorted(ctx_of(case, n) for n in mods if ctx_of(case, n) != cur_name)])
+            elif k == "deffn":
+                exec("def sf():\n    return x", cur)  # noqa: S102 - the function's globals are the current namespace
+            elif k == "callfn":
+                if "sf" not in cur:
+                    log.append(["sess", i, "NameError"])
+                else:
+                    try:
+                        log.append(["sess", i, "val", cur["sf"]()])
+                    except NameError:
+                        log.append(["sess", i, "NameError"])
         globs = {name: canon_globals(vars(m)) for name, m in mods.items()}
+        if case.get("session"):
+            globs["session"] = canon_globals(sess_ns)
         for mn, label in (("m1", "modules.m1"), ("pkg", "modules.pkg"), ("pkg.sub", "modules.pkg.sub")):
             if mn in sys.modules:
                 globs[label] = canon_globals(vars(sys.modules[mn]))
@@ -245,11 +302,12 @@ async def execute(case):
             f"\n@service\ndef svc_{name}():\n    main()\n    vrec('done', '{name}')\n"
             f"\n@event_trigger('task_{name}')\ndef task_entry(**kw):\n    t = task.create(main)\n    task.wait({{t}})\n    vrec('done', '{name}')\n"
         )
-        files[f"script_{name}.py"] = src
+        files[(f"apps/script_{name}.py" if name in case.get("apps", []) else f"script_{name}.py")] = src
     log = []
-    async with l3.Integ(files, legacy=case["legacy"]) as it:
+    cfg = {"apps": {f"script_{n}": {} for n in case.get("apps", [])}} if case.get("apps") else None
+    async with l3.Integ(files, legacy=case["legacy"], config_extra=cfg) as it:
         for name in case["order"]:
-            if GlobalContextMgr.get(f"file.script_{name}") is None:
+            if GlobalContextMgr.get(ctx_of(case, name)) is None:
                 continue
             it.records.append((0, ("call", name), {}))
             via = case["scripts"][name]["via"]
@@ -260,14 +318,64 @@ async def execute(case):
             else:
                 await it.hass.services.async_call("pyscript", f"svc_{name}", {}, blocking=True)
             await it.settle(2)
+        sess_globs = None
+        if case.get("session"):
+            from custom_components.pyscript.eval import AstEval
+            from custom_components.pyscript.function import Function
+            from custom_components.pyscript.global_ctx import GlobalContext
+
+            sname = GlobalContextMgr.new_name("jupyter_")
+            sctx = GlobalContext(sname, global_sym_table={"__name__": sname}, manager=GlobalContextMgr)
+            sctx.set_auto_start(True)
+            GlobalContextMgr.set(sname, sctx)
+            s_ast = AstEval(sname, sctx)
+            Function.install_ast_funcs(s_ast)
+
+            def real(n):
+                return sname if n == "session" else ctx_of(case, n) if n in case["scripts"] else "file.nonexistent"
+
+            for i, op in enumerate(case["session"]):
+                k = op[0]
+                if k == "read":
+                    code = f"try:\n    vrec('sess', {i}, 'val', {op[1]})\nexcept NameError:\n    vrec('sess', {i}, 'NameError')"
+                elif k == "write":
+                    code = f"x = {op[1]!r}"
+                elif k == "def":
+                    code = f"sv{op[1]} = {op[2]!r}"
+                elif k == "set":
+                    code = f"try:\n    pyscript.set_global_ctx({real(op[1])!r})\nexcept NameError:\n    vrec('sess', {i}, 'NameError')"
+                elif k == "get":
+                    code = f"vrec('sess', {i}, 'ctx', pyscript.get_global_ctx())"
+                elif k == "list":
+                    code = f"vrec('sess', {i}, 'list', pyscript.list_global_ctx())"
+                elif k == "deffn":
+                    code = "def sf():\n    return x"
+                else:
+                    code = f"try:\n    vrec('sess', {i}, 'val', sf())\nexcept NameError:\n    vrec('sess', {i}, 'NameError')"
+                s_ast.parse(code)
+                await s_ast.eval()
+                await it.settle(1)
+            sess_globs = canon_globals({k: v for k, v in sctx.global_sym_table.items()})
+            GlobalContextMgr.delete(sname)
         for vt, a, kw in it.records:
             if a[0] == "done":
                 continue
-            log.append(json.loads(json.dumps(list(a), default=repr)))
+            row = json.loads(json.dumps(list(a), default=repr))
+            if row[0] == "sess" and case.get("session"):
+                # the session's generated name is presentation
+                if row[2] == "ctx":
+                    row[3] = "session" if row[3] == sname else row[3]
+                elif row[2] == "list":
+                    names = row[3]
+                    first = "session" if names[0] == sname else names[0]
+                    row = row[:3] + [first, sorted(n for n in names[1:] if n.startswith(("file.script_", "apps.script_")))]
+            log.append(row)
         globs = {}
+        if sess_globs is not None:
+            globs["session"] = sess_globs
         load_errors = {}
         for name in case["scripts"]:
-            g = GlobalContextMgr.get(f"file.script_{name}")
+            g = GlobalContextMgr.get(ctx_of(case, name))
             if g is None:
                 load_errors[name] = "failed"
             else:
@@ -284,18 +392,20 @@ async def execute(case):
 class C11(ModelCheck):
     prop = PROP
     rule = (
-        "2-3 script files plus the module m1 and the package pkg (with pkg.sub), all defining the global names x / "
+        "2-3 script files (one of them installed as an app in a third of the cases) plus the module m1 and the package pkg (with pkg.sub), all defining the global names x / "
         "counter / shared with different values; generated import forms per script (import m, from m import f, from "
         "m import f as g, from m import *, import pkg, from pkg import f, from pkg.sub import ..., relative import "
         "inside the package, a module importing the package) and per script 1-5 cross-file calls (module function "
         "changing its own globals, raising callee, callee calling back into the caller's function, callee reaching a "
         "third file) each followed by a probe of the caller's own globals; entry through an event trigger, a service or "
-        "task.create; 2-6 entries in generated order. Oracle: CPython importing the same files as ordinary modules - "
+        "task.create; 2-6 entries in generated order; then, in half of the cases, 2-10 cells of an interactive (Jupyter-style) session context: define / read / write globals, "
+        "pyscript.set_global_ctx to a script, back to the session or to a missing name, get_global_ctx, list_global_ctx, a function defined in "
+        "one context and called after switching to another. Oracle: CPython importing the same files as ordinary modules - "
         "the ordered tracer log, the non-dunder globals of every file and module afterwards (so a write that lands in "
         "the wrong file, a second module instance or a leaked star-import name is visible) must agree. Non-trivial = >= 2 "
         "files sharing a global name and >= 1 executed cross-file call; distinct by case content."
     )
-    assumptions = ["CPython module semantics are the reference; scripts are imported as script_<name> modules there", "Jupyter-session context switching is not covered by this check"]
+    assumptions = ["CPython module semantics are the reference; scripts are imported as script_<name> modules there", "the session context is created the way jupyter_kernel_start creates it (GlobalContext + AstEval), without a kernel; the session reference is a plain dictionary namespace switched by hand"]
 
     def n_random(self, tier):
         return {"quick": 640, "thorough": 24000}[tier]
@@ -310,7 +420,7 @@ class C11(ModelCheck):
         exp = {"log": ref["log"], "globals": ref["globals"], "load_errors": sorted(ref["load_errors"])}
         got = {"log": obs["log"], "globals": obs["globals"], "load_errors": sorted(obs["load_errors"])}
         crossfile = any(x[0] in ("m1", "pkg", "sub") for x in ref["log"] if x)
-        return {"expected": exp, "observed": got, "nontrivial": crossfile, "classes": ["legacy" if case["legacy"] else "new"],
+        return {"expected": exp, "observed": got, "nontrivial": crossfile, "classes": ["legacy" if case["legacy"] else "new"] + (["app-context"] if case.get("apps") and not ref["load_errors"] else []) + (["session-cells"] if case.get("session") else []),
                 "detail": {"errors": obs["errors"][:3]}}
 
     def bucket(self, case, r):
